@@ -169,6 +169,16 @@ def np_apply(op: str, a: list[Any], p: dict[str, Any], mca: MCA) -> Any:
         if op in _RED_NP:
             x = np.asarray(a[0])
             ax = None if p["axis"] is None else tuple(p["axis"])
+            if getattr(mca, "pure_numpy", False):
+                # NumPy's own result dtypes (sum(int32)->int64, sum(bool)->int64,
+                # all/any->bool); used where the generated program *is* NumPy code (C14)
+                r = _RED_NP[op](x, axis=ax)
+                if op in ("sum", "prod") and x.dtype.kind in "fc" and mca.rng is not None:
+                    n = x.size // max(np.asarray(r).size, 1)
+                    u = np.finfo(x.dtype).eps
+                    extra = n * u * (np.sum(np.abs(x), axis=ax) if op == "sum" else np.abs(r))
+                    r = mca.p(np.asarray(r), extra)
+                return r
             if op in ("sum", "prod"):
                 r = _RED_NP[op](x, axis=ax, dtype=x.dtype)
                 if x.dtype.kind in "fc" and mca.rng is not None:
@@ -195,7 +205,9 @@ def np_apply(op: str, a: list[Any], p: dict[str, Any], mca: MCA) -> Any:
                     lens.setdefault(ch, 1)
             bv = [np.broadcast_to(v, tuple(lens[ch] for ch in sub)) for sub, v in zip(ins, xs)]
             dt = np.result_type(*[v.dtype for v in xs])
-            r = np.einsum(spec, *bv).astype(dt)
+            # raw operands: NumPy broadcasts unit axes across operands itself and rejects
+            # a repeated index with different lengths inside one operand
+            r = np.einsum(spec, *xs).astype(dt)
             if dt.kind in "fc" and mca.rng is not None:
                 u = np.finfo(dt).eps
                 n = int(np.prod([lens[c] for c in lens], dtype=np.int64))
@@ -442,10 +454,12 @@ def input_values(spec: dict[str, Any], vset: int) -> dict[int, np.ndarray]:
 class Shadow:
     """NumPy execution of a spec.  ``vals[id]`` for every input and node."""
 
-    def __init__(self, spec: dict[str, Any], vset: int, mca_seed: int | None = None):
+    def __init__(self, spec: dict[str, Any], vset: int, mca_seed: int | None = None,
+                 pure_numpy: bool = False):
         self.spec = spec
         self.vals: dict[int, Any] = dict(input_values(spec, vset))
         self.mca = MCA(None if mca_seed is None else np.random.default_rng(mca_seed))
+        self.mca.pure_numpy = pure_numpy  # type: ignore[attr-defined]
         for nd in spec["nodes"]:
             self.vals[nd["id"]] = self.eval_node(nd)
 
@@ -498,15 +512,16 @@ class PtBuild:
                 if inp["kind"] == "ph"}
 
 
-def reference(spec: dict[str, Any], vset: int, n_mca: int = 4
+def reference(spec: dict[str, Any], vset: int, n_mca: int = 4, pure_numpy: bool = False
               ) -> tuple[dict[str, np.ndarray], dict[str, np.ndarray], bool, Shadow]:
     """-> (reference outputs, per-output absolute spread, fragile?, plain shadow)."""
-    plain = Shadow(spec, vset)
+    plain = Shadow(spec, vset, pure_numpy=pure_numpy)
     ref = plain.outputs()
     spread = {k: np.zeros(v.shape) for k, v in ref.items()}
     fragile = False
     for j in range(n_mca):
-        sh = Shadow(spec, vset, mca_seed=common.sub_seed(spec["vseed"], "mca", vset, j))
+        sh = Shadow(spec, vset, mca_seed=common.sub_seed(spec["vseed"], "mca", vset, j),
+                    pure_numpy=pure_numpy)
         # any discrete-valued node that flips under perturbation => fragile input set
         for nid, v in sh.vals.items():
             pv = plain.vals[nid]
